@@ -4,6 +4,7 @@ pub mod checks;
 pub mod choice;
 pub mod data;
 pub mod engine;
+pub mod fuzzentry;
 pub mod pruning;
 pub mod query_ast;
 pub mod reference;
